@@ -364,3 +364,78 @@ def patho_pd_fused(rng):
          'coefficients': [['0.3', '0.5', '0.2'], ['0.1', '0.2', '0.7']]})
     b['function_types'] = whole_types(b['elements'])
     return b
+
+
+def patho_equal_coefficients(rng):
+    """a contraction whose non-zero coefficients are all equal, sharing its primitives with another contraction"""
+    b = gen_basis(rng, nel=1, allow_fused=False, lmax=1)
+    el = next(iter(b['elements'].values()))
+    c = rng.choice(['0.5', '0.25', '1.0', '-0.3'])
+    el['electron_shells'] = [{'function_type': 'gto', 'region': '', 'angular_momentum': [rng.choice([0, 1])],
+                              'exponents': ['31.7', '8.2', '2.1', '0.6'],
+                              'coefficients': [[c, c, '0.0', '0.0'], ['0.11', '0.37', '0.62', '0.0'], ['0.0', '0.0', '0.0', '1.0']]}]
+    b['function_types'] = whole_types(b['elements'])
+    return b
+
+
+def patho_plain_then_fused_shared(rng):
+    """a plain s shell followed by a fused sp shell that shares an exponent with it (the s and the p part are different functions)"""
+    b = gen_basis(rng, nel=1, allow_fused=False, lmax=0)
+    el = next(iter(b['elements'].values()))
+    x = rng.choice(['3.25', '0.9'])
+    el['electron_shells'] = [{'function_type': 'gto', 'region': '', 'angular_momentum': [0], 'exponents': ['19.5', x],
+                              'coefficients': [['0.4', '0.7']]},
+                             {'function_type': 'gto', 'region': '', 'angular_momentum': [0, 1], 'exponents': [renotate(rng, x), '0.27'],
+                              'coefficients': [['-0.2', '1.1'], ['0.3', '0.8']]}]
+    b['function_types'] = whole_types(b['elements'])
+    return b
+
+
+def patho_cancelling(rng):
+    """a primitive whose coefficients over the contractions cancel exactly (cc-pV5Z Sc style) but are not zero"""
+    b = gen_basis(rng, nel=1, allow_fused=False, lmax=1)
+    el = next(iter(b['elements'].values()))
+    el['electron_shells'] = [{'function_type': 'gto', 'region': '', 'angular_momentum': [0], 'exponents': ['41.0', '9.3', '2.2', '0.5'],
+                              'coefficients': [['0.5', '0.2', '0.000002', '0.0'], ['-0.5', '0.1', '-0.000001', '0.3'],
+                                               ['0.0', '0.7', '-0.000001', '0.9']]}]
+    b['function_types'] = whole_types(b['elements'])
+    return b
+
+
+def patho_unsorted_fused(rng):
+    """an sp shell whose exponents are not in decreasing order (SBKJC-VDZ Ce style)"""
+    b = gen_basis(rng, nel=1, allow_fused=False, lmax=0)
+    el = next(iter(b['elements'].values()))
+    el.setdefault('electron_shells', []).append(
+        {'function_type': 'gto', 'region': '', 'angular_momentum': [0, 1], 'exponents': ['0.31', '4.7', '1.2'],
+         'coefficients': [['0.6', '0.1', '0.3'], ['0.2', '0.5', '0.4']]})
+    b['function_types'] = whole_types(b['elements'])
+    return b
+
+
+def patho_respelled_shared(rng):
+    """two shells of one momentum sharing a primitive spelled in two ways (6-311G Ga style: '401.0000' and '401.0')"""
+    b = gen_basis(rng, nel=1, allow_fused=False, lmax=0)
+    el = next(iter(b['elements'].values()))
+    el['electron_shells'] = [{'function_type': 'gto', 'region': '', 'angular_momentum': [0], 'exponents': ['401.0000', '60.5', '12.25'],
+                              'coefficients': [['0.02', '0.15', '0.9']]},
+                             {'function_type': 'gto', 'region': '', 'angular_momentum': [0], 'exponents': ['401.0', '3.3'],
+                              'coefficients': [['-0.01', '1.0']]}]
+    b['function_types'] = whole_types(b['elements'])
+    return b
+
+
+def patho_p_only_primitive_in_sp(rng):
+    """an sp shell with a primitive that contributes to p only (uncontract_spdf leaves it unused in the s part)"""
+    b = gen_basis(rng, nel=1, allow_fused=False, lmax=0)
+    el = next(iter(b['elements'].values()))
+    el.setdefault('electron_shells', []).append(
+        {'function_type': 'gto', 'region': '', 'angular_momentum': [0, 1], 'exponents': ['7.1', '1.9', '0.45'],
+         'coefficients': [['0.3', '0.8', '0.0'], ['0.1', '0.4', '0.7']]})
+    b['function_types'] = whole_types(b['elements'])
+    return b
+
+
+PATHOLOGICAL = [patho_dup_function, patho_contraction_on_free, patho_mixed_fused, patho_spd, patho_spd_free_low, patho_pd_fused,
+                patho_equal_coefficients, patho_plain_then_fused_shared, patho_cancelling, patho_unsorted_fused, patho_respelled_shared,
+                patho_p_only_primitive_in_sp]
